@@ -1109,6 +1109,29 @@ def plant(rng, u, kind):
         u.items.append(it)
         build["items"].append(len(u.items) - 1)
         return "second value for %s" % (it["outs"],)
+    if kind == "duparg":
+        # an injector parameter of a type that a used item of the build set (possibly nested) provides as well; the parameter is
+        # mostly blank-named (`_ T`), which is legal and must not exempt it from the ambiguity check
+        if getattr(u, "shadow", False) or any(getattr(o, "twin_of", None) is u for o in u.prog.units):
+            return None
+        cands = [(n, t) for n in used_items if u.items[n]["kind"] in ("func", "value", "struct", "field")
+                 for t in u.items[n]["outs"] if t[0] in ("v", "p")]
+        args_now = [t for t in u.inj["args"] if t[0] in ("v", "p")]
+        if args_now and rng.random() < 0.3:
+            t = rng.choice(args_now)              # inject(_ T, x T): two parameters of one type
+            what = "another parameter"
+        elif cands:
+            n, t = rng.choice(cands)
+            if t in u.inj["args"]:
+                return None
+            what = "item %d" % u.items[n]["id"]
+        else:
+            return None
+        names = list(u.inj.get("argnames") or ["arg%d" % k for k in range(len(u.inj["args"]))])
+        u.items.append({"kind": "arg", "outs": [t], "deps": [], "id": max(x["id"] for x in u.items) + 460})
+        u.inj["args"].append(t)
+        u.inj["argnames"] = names + ["_" if rng.random() < 0.7 else "dupArg"]
+        return "parameter %s of type %s, which %s provides as well" % (u.inj["argnames"][-1], t, what)
     if kind == "dupset":
         # a set the Build already contains (through a set that imports it) is listed once more, after its superset
         cands = []
